@@ -629,6 +629,10 @@ func c07Gen(tier string, rng *rand.Rand, emit func(interface{})) {
 				emit(c07Case{Op: 0, Knots: []c07Knot{{X: F64(t), L: 0, V: 1}}, Bl: F64(t), Bh: F64(t), Ys: sweepYs})
 				emit(c07Case{Op: 0, Knots: []c07Knot{{X: F64(t), L: 0, V: 0}, {X: F64(t + w), L: 1, V: 1}}, Bl: F64(t), Bh: F64(t + w), Ys: sweepYs})
 				emit(c07Case{Op: 0, Knots: []c07Knot{{X: F64(t - w), L: 0, V: 0.25}, {X: F64(t), L: 0.75, V: 1}}, Bl: F64(t - w), Bh: F64(t), Ys: sweepYs})
+				// continuous, CDF(t) == 1/2 exactly: the requested level is met exactly AT a bracket end point
+				emit(c07Case{Op: 0, Knots: []c07Knot{{X: F64(t - w), L: 0, V: 0}, {X: F64(t), L: 0.5, V: 0.5}, {X: F64(t + w), L: 1, V: 1}}, Bl: F64(t - w), Bh: F64(t + w), Ys: sweepYs})
+				// flat at 1/2 from t on: the answer is the left end t
+				emit(c07Case{Op: 0, Knots: []c07Knot{{X: F64(t - w), L: 0, V: 0}, {X: F64(t), L: 0.5, V: 0.5}, {X: F64(t + 2), L: 0.5, V: 1}}, Bl: F64(t - w), Bh: F64(t + 2), Ys: sweepYs})
 			}
 		}
 	}
